@@ -367,6 +367,11 @@ class C17(Prop):
                 yield {"k": "methods", "kind": kind, "v": v + self.seed * 1000 if v >= 3 else v}
                 if kind != "MeasuringCircuit":
                     yield {"k": "copy", "kind": kind, "v": v}
+        # queries are functions of the receiver's current value: asked again after the first answer was scribbled
+        # on, and asked after an in-place change, they answer like a freshly built object does
+        for kind in kinds:
+            for v in range(6 if thorough else 2):
+                yield {"k": "pure", "kind": kind, "v": v + (self.seed * 1000 if v >= 3 else 0)}
         hs = self.rng.sample(self.hists, 3000 if thorough else 500)
         hk = ["Pauli", "PauliList", "PauliPolynomial", "CliffordMap", "StabilizerState", "CliffordGate", "CliffordCircuit"]
         for i, h in enumerate(hs):
@@ -417,6 +422,8 @@ class C17(Prop):
                     rec["exc"] = _exc(e)
                 out.append(rec)
             return out
+        if scn["k"] == "pure":
+            return self._pure(scn, be, K)
         if scn["k"] == "copy":
             rec = {"op": "copy", "kind": kind}
             try:
@@ -533,6 +540,62 @@ def _methods3(self, scn, be, K):
     return out
 
 
+RANDOM_Q = ("sample", "shadow_snapshots", "measured_by_copy", "povm", "layers", "stabilizer_state()")
+
+
+def _pure(self, scn, be, K):
+    kind, v = scn["kind"], scn["v"]
+    if kind == "MeasuringCircuit":
+        return []
+    qm = [e for e in K.methods[kind] if e[1] == "query" and e[0] not in RANDOM_Q]
+    im = [e for e in K.methods[kind] if e[1] == "inplace" and e[0] not in ("compose",)]
+    out = []
+    for qe in qm:
+        for ie in (im or [None]):
+            rec = {"op": "pure", "kind": kind, "meth": qe[0], "via": ie[0] if ie else "none"}
+            try:
+                o, a, x = K.new(kind, v), K.new(kind, v + 1), K.aux(v)
+                be.seed(5)
+                r1 = qe[2](o, a, x)
+                rec["first"] = fz(val(r1))
+                if not shares(o, r1) and not shares(a, r1) and not any(shares(xv, r1) for xv in x.values()):
+                    poke(r1)           # the caller owns the answer: scribbling on it must not reach later answers
+                be.seed(5)
+                rec["again"] = fz(val(qe[2](o, a, x)))
+                if ie is not None:
+                    be.seed(9)
+                    try:
+                        ie[2](o, a, x)
+                    except (NotImplementedError, ValueError):
+                        pass
+                    be.seed(5)
+                    try:
+                        rec["live"] = fz(val(qe[2](o, a, x)))
+                    except Exception as e:
+                        rec["live"] = "raised " + type(e).__name__
+                    # the same in-place change on an object nobody has queried before
+                    o2, a2, x2 = K.new(kind, v), K.new(kind, v + 1), K.aux(v)
+                    be.seed(9)
+                    try:
+                        ie[2](o2, a2, x2)
+                    except (NotImplementedError, ValueError):
+                        pass
+                    be.seed(5)
+                    try:
+                        rec["fresh"] = fz(val(qe[2](o2, a2, x2)))
+                    except Exception as e:
+                        rec["fresh"] = "raised " + type(e).__name__
+            except NotImplementedError:
+                continue
+            except Exception as e:
+                rec["exc"] = _exc(e)
+            out.append(rec)
+    return out
+
+
+C17_pure = _pure
+
+
 def fz(v):
     """values are compared as canonical strings (TLC refuses to compare values of different shapes)"""
     import json
@@ -561,4 +624,5 @@ def mask_unset(b, a):
 
 
 C17._methods3 = _methods3
+C17._pure = _pure
 PROP = C17
